@@ -56,29 +56,15 @@ def formOk (f : Gen.ScalarForm) : Bool :=
   -- the non-assign forms turn `Err` into a panic (the assign forms cannot fail)
   && (f.assign || f.panicsOnErr)
 
-/-- every arm of every scalar-operator macro has the operand order, receiver, scalar argument
-and delegate the property states -/
-theorem forms_correct : ∀ f ∈ Gen.scalarForms, formOk f = true := by decide
+/- The table theorems `forms_correct`, `forms_complete` and `neg_forms_correct` (T1: the macro arms read by regular expressions) were
+retired in the fourth session: `C18.scalar_operators_are_the_source` (T18, `Lemmas/BridgeT18.lean`) proves every impl inside the macro arms,
+regenerated with the metavariables symbolic, equal to the model's scalar operation with the operand order the property states, and
+`scalar_instantiations_are_the_source` that each operator is instantiated for exactly the 14 primitive types in all four (element, scalar)
+reference combinations plus the two assign forms — strictly more than the tables said, and independent of spelling (the tables alarmed on
+renamed binders, `panic!("{}", e)`, `-element`, a renamed macro). -/
 
 def the14 : List String :=
   ["u8", "u16", "u32", "u64", "u128", "usize", "i8", "i16", "i32", "i64", "i128", "isize", "f32", "f64"]
-
-/-- all 14 primitive types are instantiated for each of the five operators; per operator there
-are the four (matrix side × owned/borrowed matrix) arms with four element/scalar reference forms
-each, plus two assign forms: 18 forms × 14 types × 5 operators = 1260 impls -/
-theorem forms_complete :
-    Gen.primTypes_add = the14 ∧ Gen.primTypes_sub = the14 ∧ Gen.primTypes_mul = the14 ∧
-    Gen.primTypes_div = the14 ∧ Gen.primTypes_rem = the14 ∧
-    ∀ m ∈ ["add", "sub", "mul", "div", "rem"],
-      ((Gen.scalarForms.filter fun f => f.module == m && !f.assign).map
-          fun f => (f.matrixOnLeft, f.matrixOwned, f.nElemForms))
-        = [(true, true, 4), (true, false, 4), (false, true, 4), (false, false, 4)] ∧
-      (Gen.scalarForms.filter fun f => f.module == m && f.assign).length = 2 := by decide
-
-/-- unary negation: the owned form maps `element.neg()` over the consumed matrix, the borrowed
-form maps `element.clone().neg()` over references; both keep shape and order (`Matrix.map`) -/
-theorem neg_forms_correct :
-    Gen.negForms = [⟨true, "map", false⟩, ⟨false, "map_ref", true⟩] := by decide
 
 theorem neg_spec (esOut : Nat) (m : Matrix α) (neg : α → γ) (h : esOut * m.data.size ≤ isizeMax) :
     m.map esOut neg = .ok (.ok ⟨m.order, m.shape, m.data.map neg⟩) := by
@@ -87,7 +73,6 @@ theorem neg_spec (esOut : Nat) (m : Matrix α) (neg : α → γ) (h : esOut * m.
   simp [this, bindErr, Vec.reserveExact, pure, Except.pure]
 
 /-! ### non-vacuity -/
-example : (Gen.scalarForms.length, Gen.scalarForms.all formOk) = (30, true) := by decide
 example : ((⟨.colMajor, ⟨3, 2⟩, #[7, 3, 12, 5, 9, 20]⟩ : Matrix Int).scalarOperation 8 (100 : Int)
     (fun e s => s - e)).map (·.map (·.data.toList)) = .ok (.ok [93, 97, 88, 95, 91, 80]) := by
   rw [scalar_generic]; simp [isizeMax]; rfl
